@@ -552,20 +552,24 @@ func TestVerifImport(t *testing.T) {
 	fctxConn := &fasthttp.RequestCtx{} // ONE keep-alive connection for all handler-mode cases
 	fctxConn.Init(&fasthttp.Request{}, nil, nil)
 	oneRow := []byte("time,v\n1700000000,1\n")
+	// every row handed to the buffer has been written by a flush (queue empty, no write in flight)
+	drained := func() bool {
+		st := buf2.GetStats()
+		return st["flush_queue_depth"].(int64) == 0 && gated.inflight.Load() == 0 &&
+			st["total_records_written"].(int64) == st["total_records_buffered"].(int64)
+	}
 	drain := func() {
-		deadline := time.Now().Add(30 * time.Second)
+		deadline := time.Now().Add(60 * time.Second)
 		for time.Now().Before(deadline) {
-			st := buf2.GetStats()
-			if st["flush_queue_depth"].(int64) == 0 && gated.inflight.Load() == 0 {
+			if drained() {
 				time.Sleep(2 * time.Millisecond)
-				st = buf2.GetStats()
-				if st["flush_queue_depth"].(int64) == 0 && gated.inflight.Load() == 0 {
+				if drained() {
 					return
 				}
 			}
 			time.Sleep(time.Millisecond)
 		}
-		t.Fatalf("flush queue did not drain")
+		t.Fatalf("flush queue did not drain: %v", buf2.GetStats())
 	}
 
 	res := make([]verifImpObs, 0, len(cases))
